@@ -1,10 +1,13 @@
 #!/bin/bash
-# confirm a seeded change in its scratch worktree: demo fails with the change, passes without; lib suite passes with the change
-id=$1; wt=$2
+# confirm a seeded change in its scratch worktree WITHOUT git stash (the stash is shared between worktrees):
+# demo fails with the change, passes without; lib suite passes with the change
+id=$1; wt=$2; patch=$3
 cd $wt || exit 2
+git checkout -q -- src common precompile 2>/dev/null
+git apply $patch || { echo "$id: patch does not apply"; exit 2; }
 a=$(cargo test --offline --test demo_$id 2>&1 | grep "^test result" | head -1)
-git stash push -q -- src common precompile
+git apply -R $patch
 b=$(cargo test --offline --test demo_$id 2>&1 | grep "^test result" | head -1)
-git stash pop -q
+git apply $patch
 c=$(cargo test --offline --lib 2>&1 | grep "^test result" | head -1)
 echo "$id | with change: $a | without: $b | lib suite with change: $c"
